@@ -11,6 +11,12 @@ CHECKS = {
     "C04": ("bounded-exhaustive enumeration of layouts (deviation-bounded choice exploration over the layout model) of generated programs, reader items compared with a stream model and trees with the canonical layout's tree",
             "for every corpus and template program every layout within the deviation bound (continuation at every token boundary x style, breaks inside every character literal, extra blanks, comment/blank lines, trailing comments, ';' joins, indentation, keyword case) gives the reader items the model predicts and the same parse tree as the canonical layout",
             _NOTE, "DESIGN.md 4/C04"),
+    "C05": ("bounded-exhaustive enumeration of fixed-form renderings (deviation-bounded choice exploration over the fixed-form layout model), compared with the free-form parse and a stream model",
+            "every fixed-form rendering within the deviation bound is detected as fixed, delivers the model's items and parses to the free-form tree; every free rendering starting in columns 1-5 is detected as free",
+            _NOTE, "DESIGN.md 4/C05"),
+    "C12": ("explicit-state search over reader get/put/commit operation sequences on the real reader objects against a stream model, plus bounded-exhaustive layout enumeration for the delivered items",
+            "all operation sequences up to the length bound on a catalogue of streams covering every buffer interaction are executed step by step against model S (object identity after put-back, drained remainder); all layouts within the deviation bound deliver exactly the model's items with exact spans",
+            _NOTE, "DESIGN.md 4/C12"),
     "C10": ("bounded-exhaustive enumeration of generated programs; structural invariants evaluated on every node of every tree (first parse and re-parse)",
             "every tree produced for model G within the bounds (both standards, comments kept/dropped, plus backtracking-heavy inputs) satisfies the parent/children/get_root/walk invariants on every node",
             _NOTE, "DESIGN.md 4/C10"),
